@@ -269,6 +269,7 @@ int main(int argc, char **argv) {
   double seconds = atof(arg(argc, argv, "--seconds", "10").c_str());
   long maxruns = atol(arg(argc, argv, "--maxruns", "1000000000").c_str());
   long start = atol(arg(argc, argv, "--start", "-1").c_str());
+  long maxindex = atol(arg(argc, argv, "--maxindex", "4000000000000").c_str());   // run indices at or above this are not executed (quick tier: verified prefix)
   long triage = atol(arg(argc, argv, "--triage", "-1").c_str());
   int maxviol = atoi(arg(argc, argv, "--maxviol", "3").c_str());
   std::string replaydir = arg(argc, argv, "--replaydir", "/verif/replays");
@@ -292,7 +293,7 @@ int main(int argc, char **argv) {
     if (!handle_violation(e, engine, p, nullptr, cfg.prop, cfg.seed, replaydir, do_shrink)) flaky++; else viols++;
   }
   long r = start >= 0 ? start : worker;
-  for (; runs < maxruns && now_s() - t0 < seconds && viols < maxviol && !flaky; r += nworkers) {
+  for (; r < maxindex && runs < maxruns && now_s() - t0 < seconds && viols < maxviol && !flaky; r += nworkers) {
     cfg.seed = mix64(cfg.master, (uint64_t)r);
     printf("START %ld %llu\n", r, (unsigned long long)cfg.seed); fflush(stdout);   // before generation: whatever kills the worker from here on belongs to run r
     Plan p = gen_guarded(e, cfg);
